@@ -34,7 +34,7 @@ ASSUMPTIONS = [
 ]
 
 SCNS = ["raw-bs2", "raw-bool", "runner", "runner-df", "harv-jl-overlap",
-        "harv-h5-disjoint", "harv-jl-none", "samp-pkl"]
+        "harv-h5-disjoint", "harv-jl-none", "samp-pkl", "samp-pkl-none"]
 # failures whose corrected retry is also made through the very objects (Crop
 # and its farmer) that saw the failure - a long-lived session
 LIVE = ("incomplete", "garbage", "shortres", "overlong", "conflict", "fault")
@@ -95,7 +95,7 @@ class Env:
         if sc.earlier:
             sc.seed_earlier(self.d)
         self.earlier_rows = []
-        if sc.kind == "sampler":
+        if sc.kind == "sampler" and sc.earlier:
             self.earlier_rows = sc.load_data(self.d)
         crop = sc.new_crop(self.d)
         sc.sow(crop)
